@@ -22,7 +22,7 @@ import (
 // shortcut in Distinct: `item == data[index-1]`).
 func init() {
 	for _, id := range []string{"C03", "C06", "C09", "C10", "C18", "C20"} {
-		register(id, ruleGoIfaceCompare)
+		registerLate(id, ruleGoIfaceCompare)
 	}
 }
 
@@ -230,7 +230,7 @@ func ruleGoIfaceCompare(c *Ctx) {
 // captured by function literals are not counted: the first is not kept, the second is shared on purpose.
 func init() {
 	for _, id := range []string{"C01", "C02", "C03", "C04", "C05", "C06", "C07", "C08", "C09", "C10", "C11", "C12", "C13", "C14", "C15", "C16", "C17", "C18", "C19", "C20"} {
-		register(id, ruleGoAddrOverwritten)
+		registerLate(id, ruleGoAddrOverwritten)
 	}
 }
 
@@ -472,7 +472,7 @@ func cut(s string, n int) string {
 // float32, float64 written directly, everything else through %v as before) and is left alone.
 func init() {
 	for _, id := range []string{"C01", "C02", "C03", "C04", "C05", "C06", "C15", "C18"} {
-		register(id, ruleGoNumericArms)
+		registerLate(id, ruleGoNumericArms)
 	}
 }
 
